@@ -360,6 +360,7 @@ def hellinger_distance(x: np.array, y: np.array) -> float:
 
 
 @d.avoid_zero_division
+@njit(cache=True)
 def jaccard_distance(x: np.array, y: np.array) -> float:
     """Calculates the Jaccard Distance.
 
